@@ -19,16 +19,41 @@ Dy(m, e) == Strip(m, e)
 DZero == [m |-> 0, e |-> 0]
 DOne == [m |-> 1, e |-> 0]
 DInt(k) == Strip(k, 0)
-
-DAdd(a, b) == IF a.m = 0 THEN b ELSE IF b.m = 0 THEN a
-              ELSE IF a.e >= b.e THEN Strip(a.m + b.m * Pow2[a.e - b.e], a.e)
-              ELSE Strip(a.m * Pow2[b.e - a.e] + b.m, b.e)
-DMul(a, b) == IF a.m = 0 \/ b.m = 0 THEN DZero ELSE [m |-> a.m * b.m, e |-> a.e + b.e]
-DNeg(a) == [m |-> 0 - a.m, e |-> a.e]
 Abs(x) == IF x < 0 THEN 0 - x ELSE x
+
+(***************************************************************************)
+(* Guard of the exact domain.  The specification checks the magnitudes of  *)
+(* ITS OWN operands before every product and aligned sum; a result that    *)
+(* would leave the 31-bit mantissa range is the poison value Huge, which   *)
+(* propagates.  A case whose specified values contain Huge has "left the   *)
+(* exact domain" and is skipped by the validator (never a verdict), and    *)
+(* TLC never overflows.  Every intermediate value of the specification is  *)
+(* therefore below 2^31, far inside the 53-bit significand of f64.         *)
+(***************************************************************************)
+Lim == 1073741823                      \* 2^30 - 1
+Huge == [m |-> 0, e |-> 100000]
+IsHuge(a) == a.e = 100000
+
+DAdd(a, b) ==
+  IF IsHuge(a) \/ IsHuge(b) THEN Huge
+  ELSE IF a.m = 0 THEN b ELSE IF b.m = 0 THEN a
+  ELSE LET hi == IF a.e >= b.e THEN a ELSE b      \* the finer-grained operand keeps its mantissa
+           lo == IF a.e >= b.e THEN b ELSE a
+           dl == hi.e - lo.e
+       IN IF dl > 29 THEN Huge
+          ELSE IF Abs(lo.m) > Lim \div Pow2[dl] \/ Abs(hi.m) > Lim THEN Huge
+          ELSE Strip(hi.m + lo.m * Pow2[dl], hi.e)
+DMul(a, b) ==
+  IF a = DZero \/ b = DZero THEN DZero
+  ELSE IF IsHuge(a) \/ IsHuge(b) THEN Huge
+  ELSE IF Abs(a.m) > Lim \div Abs(b.m) THEN Huge
+  ELSE IF Abs(a.e + b.e) > 900 THEN Huge
+  ELSE [m |-> a.m * b.m, e |-> a.e + b.e]
+DNeg(a) == IF IsHuge(a) THEN Huge ELSE [m |-> 0 - a.m, e |-> a.e]
 \* reciprocal is dyadic only for +-2^k, i.e. canonical mantissa +-1
-DInvOK(a) == Abs(a.m) = 1
-DInv(a) == IF DInvOK(a) THEN [m |-> a.m, e |-> 0 - a.e]
+DInvOK(a) == Abs(a.m) = 1 /\ ~IsHuge(a)
+DInv(a) == IF IsHuge(a) THEN Huge
+           ELSE IF DInvOK(a) THEN [m |-> a.m, e |-> 0 - a.e]
            ELSE Assert(FALSE, <<"Dyadic: reciprocal of a non power of two", a>>)
 DDiv(a, b) == DMul(a, DInv(b))
 DSign(a) == IF a.m > 0 THEN 1 ELSE IF a.m < 0 THEN -1 ELSE 0
@@ -40,6 +65,7 @@ DPow(a, p) == IF p.n >= 0 THEN DPowN(a, p.n) ELSE DInv(DPowN(a, 0 - p.n))
 DDPow(a, p) == IF p.n = 0 THEN DZero ELSE DMul(DInt(p.n), DPow(a, [n |-> p.n - 1]))
 
 DFn(name, a) ==
+  IF IsHuge(a) THEN Huge ELSE
   CASE name = "relu" -> IF a.m > 0 THEN a ELSE DZero
     [] name = "step" -> IF a.m > 0 THEN DOne ELSE DZero
     [] OTHER -> Assert(FALSE, <<"Dyadic: transcendental function in the exact domain", name>>)
